@@ -3,6 +3,7 @@ from props_front import POOL, c09_shapes
 import props_pipe
 import props_time
 import props_list
+import props_cli
 
 COMMON_ASSUME = [
     'input strings are well-formed UTF-8 (Rust &str invariant), constrained by the exact RFC 3629 formula',
@@ -228,4 +229,14 @@ PROPS = {
                     'serde_json::to_string is stubbed (keeps the Vec<ListItem> structure)', 'holes contain no line break; tags do not sit on unwrap wrapper lines'],
                 explanation='chiritori::list_all (JSON) on templates with 0..4 pending siblings / children around and inside ready elements, both strategies: items = Ready '
                             'regions + Pending regions not inside a Ready or a larger Pending region, in source order; Ready subsequence identical to list.'),
+    'C20': dict(jobs=props_cli.c20_jobs, cli=True, tv=('front', 'pipe', 'list'), assumptions=PIPE_ASSUME + [
+                    'clap_builder (argv parsing), the operating system and chrono\'s zone handling are not executed symbolically: Args::parse is modelled as '
+                    'clap\'s documented contract (command-line values, else the recorded default_value, else absent; flags default to false) over the argument '
+                    'definitions that the real derive-generated augment_args MIR records, files / stdin / stdout are an in-memory model, Local::now a stub',
+                    'the native differential runs the real binary on every job replayed, under TZ = UTC, Asia/Tokyo, America/Los_Angeles and unset',
+                    'option values are printable ASCII without a leading "-"; --time-limited-current is one of three RFC 3339 strings or absent'],
+                explanation='chiritori-cli `main` executed from its own MIR with the derive-generated clap glue and the library MIR in one interpreter: for each option '
+                            'set (input file / stdin, stdout / --output / --output = input, five modes, targets by flags / config file / both / none, custom spelling, '
+                            'times and offsets) the bytes written equal the library result for the configuration the options stand for; with no target option a '
+                            'symbolic 6-byte marker name must never be removed (decides the option-defaults clause).'),
 }
